@@ -28,40 +28,47 @@ Definition hstyle_of (s : hsel) : option hstyle :=
 Definition glyphs_of (st : hstyle) : hglyphs :=
   HG (hs_first st) (hs_subseq st) (hs_split st) (hs_middle st) (hs_last st) (hs_stem st) (hs_branch st).
 
-Definition mflow_obs := (str * option str * str * str)%type.     (* from_ref, from label, to_ref, to label *)
+(* from_ref, from label, to_ref, to label, edge label *)
+Definition mflow_obs := (str * option str * str * str * option str)%type.
 
 Inductive rcase :=
-| CV (t : tree) (start : pos) (max_depth : nat) (st : vsel)
+| CV (t : tree) (binary : bool) (start : pos) (max_depth : nat) (st : vsel)
+     (po : option printopts)             (* print_tree's attribute options, None = not passed *)
      (out : option (list vline))         (* yield_tree: the triples, None = exception *)
-     (printed : list str)                (* print_tree: the printed lines ([] on exception) *)
+     (printed : option (list str))       (* print_tree: the printed lines, None = exception *)
 | CH (t : tree) (start : pos) (max_depth : nat) (inter : bool) (st : hsel)
      (out : option (list str))           (* hyield_tree *)
-| CD (t : tree) (sep : str) (opts : dotopts)
+| CD (t : tree) (more : list tree) (sep : str) (opts : dotopts)   (* tree_to_dot(t) or tree_to_dot([t] ++ more) *)
      (nodes : list (str * str)) (edges : list (str * str))   (* pydot: (name, label), (src, dst), creation order *)
      (vattrs eattrs : list sdict)        (* pydot: attribute dictionary of every vertex / edge, same order *)
-| CM (t : tree) (lines : list str) (flows : list mflow_obs). (* mermaid: flow lines raw and parsed *)
+| CM (t : tree) (start : pos) (max_depth : nat) (opts : mopts)
+     (lines : list str) (flows : list mflow_obs).   (* mermaid: flow lines raw and parsed *)
 
 Definition vline_eqb (a b : vline) : bool :=
   let '(p, f, n) := a in let '(p', f', n') := b in str_eqb p p' && str_eqb f f' && str_eqb n n'.
 Definition pairs_eqb (a b : list (str * str)) : bool := list_eqb pair_eqb a b.
 Definition flow_eqb (a b : mflow_obs) : bool :=
-  let '(f, fl, t, tl) := a in let '(f', fl', t', tl') := b in
-  str_eqb f f' && opt_eqb str_eqb fl fl' && str_eqb t t' && str_eqb tl tl'.
-Definition flow_of (f : mflow) : mflow_obs := (mf_from f, mf_from_label f, mf_to f, mf_to_label f).
+  let '(f, fl, t, tl, el) := a in let '(f', fl', t', tl', el') := b in
+  str_eqb f f' && opt_eqb str_eqb fl fl' && str_eqb t t' && str_eqb tl tl' && opt_eqb str_eqb el el'.
+(* the source's label is written exactly on the flows that start at the root *)
+Definition flowx_of (root_label : str) (f : mflowx) : mflow_obs :=
+  (mx_from f, match mx_from_name f with [] => None | _ => Some root_label end, mx_to f, mx_to_label f, mx_label f).
 
 (* vertices and edges a reader takes from the parsed flows: the source of the first flow (which
    carries the root's label) and every destination; every labelled source must be that root vertex
    and every source must be a vertex *)
 Definition mverts (flows : list mflow_obs) : list (str * str) :=
   match flows with
-  | (f, Some l, _, _) :: _ => (f, l) :: map (fun x => let '(_, _, t, tl) := x in (t, tl)) flows
-  | _ => map (fun x => let '(_, _, t, tl) := x in (t, tl)) flows
+  | (f, Some l, _, _, _) :: _ => (f, l) :: map (fun x => let '(_, _, t, tl, _) := x in (t, tl)) flows
+  | _ => map (fun x => let '(_, _, t, tl, _) := x in (t, tl)) flows
   end.
 Definition medges (flows : list mflow_obs) : list (str * str) :=
-  map (fun x => let '(f, _, t, _) := x in (f, t)) flows.
+  map (fun x => let '(f, _, t, _, _) := x in (f, t)) flows.
+Definition mlabels (flows : list mflow_obs) : list (option str) :=
+  map (fun x => let '(_, _, _, _, el) := x in el) flows.
 Definition mflows_consistent (flows : list mflow_obs) : bool :=
   let vs := mverts flows in
-  forallb (fun x => let '(f, fl, _, _) := x in
+  forallb (fun x => let '(f, fl, _, _, _) := x in
                     existsb (fun v => str_eqb (fst v) f) vs
                     && match fl with
                        | Some l => match vs with v :: _ => pair_eqb v (f, l) | [] => false end
@@ -76,13 +83,25 @@ Definition same_dict (a b : sdict) : bool :=
 (* a node with style dictionaries *)
 Definition Na (n : str) (a : attrs) (ks : list tree) : tree := T None n a ks.
 Definition no_opts : dotopts := DO None None None false false.
+Definition po_default : printopts := PO false [] false [[91%N]; [93%N]].
 
 Definition agree (c : rcase) : bool :=
   match c with
-  | CV t start md sel out printed =>
+  | CV t binary start md sel po out printed =>
       match (match vstyle_of sel with Some st => yield_tree st t start md | None => Raise ValueError end), out with
-      | Ret l, Some l' => list_eqb vline_eqb l l' && list_eqb str_eqb (map line_of l) printed
-      | Raise _, None => true
+      | Ret l, Some l' =>
+          list_eqb vline_eqb l l'
+          && match get_subtree t start md, vstyle_of sel with
+             | Some s, Some st =>
+                 match print_lines_opt st binary (match po with Some o => o | None => po_default end) (compact s),
+                       printed with
+                 | Ret pl, Some pl' => list_eqb str_eqb pl pl'
+                 | Raise _, None => true
+                 | _, _ => false
+                 end
+             | _, _ => false
+             end
+      | Raise _, None => match printed with None => true | Some _ => false end
       | _, _ => false
       end
   | CH t start md inter sel out =>
@@ -91,23 +110,35 @@ Definition agree (c : rcase) : bool :=
       | Raise _, None => true
       | _, _ => false
       end
-  | CD t sep o nodes edges vattrs eattrs =>
-      pairs_eqb (dot_nodes sep t) nodes && pairs_eqb (dot_edges sep t) edges
-      && list_eqb same_dict (dot_vertex_attrs o t) vattrs && list_eqb same_dict (dot_edge_attrs o t) eattrs
-  | CM t lines flows =>
-      list_eqb str_eqb (mermaid_lines t) lines && list_eqb flow_eqb (map flow_of (mermaid_flows t)) flows
+  | CD t more sep o nodes edges vattrs eattrs =>
+      pairs_eqb (dot_forest_nodes sep (t :: more)) nodes && pairs_eqb (dot_forest_edges sep (t :: more)) edges
+      && list_eqb same_dict (dot_forest_vertex_attrs o (t :: more)) vattrs
+      && list_eqb same_dict (dot_forest_edge_attrs o (t :: more)) eattrs
+  | CM t start md o lines flows =>
+      match mermaid_call o t start md with
+      | Ret (fx, ls) =>
+          list_eqb str_eqb ls lines
+          && list_eqb flow_eqb (map (flowx_of (match get_subtree t start md with Some s => tname s | None => [] end)) fx)
+                      flows
+      | Raise _ => false
+      end
   end.
 
 (* the property on the implementation's output.  An exception is a failure exactly when the call
    was valid (existing start node, well-formed style). *)
 Definition prop_C18 (c : rcase) : bool :=
   match c with
-  | CV t start md sel out printed =>
+  | CV t binary start md sel po out printed =>
       match get_subtree t start md, vstyle_of sel with
       | Some s, Some st =>
           if vstyle_ok st then
             match out with
-            | Some l => prop_C18_v st (compact s) l && v_text_decodable st (compact s) printed
+            | Some l => prop_C18_v st (compact s) l
+                        && match po, printed with
+                           | None, Some pl => v_text_decodable st (compact s) pl   (* plain text: decode it *)
+                           | None, None => false
+                           | Some _, _ => true       (* with attribute suffixes: compared with the model only *)
+                           end
             | None => false
             end
           else match out with None => true | Some _ => false end
@@ -122,8 +153,14 @@ Definition prop_C18 (c : rcase) : bool :=
           end
       | _, _ => match out with None => true | Some _ => false end
       end
-  | CD t sep o nodes edges vattrs eattrs => prop_C18_g t nodes edges && prop_C18_attrs o t vattrs eattrs
-  | CM t lines flows => mflows_consistent flows && prop_C18_g t (mverts flows) (medges flows)
+  | CD t more sep o nodes edges vattrs eattrs =>
+      prop_C18_gf (t :: more) nodes edges && prop_C18_attrs_f o (t :: more) vattrs eattrs
+  | CM t start md o lines flows =>
+      match get_subtree t start md with
+      | Some s => mflows_consistent flows && prop_C18_g s (mverts flows) (medges flows)
+                  && m_edge_labels_ok (mo_label o) (compact s) (mlabels flows)
+      | None => false
+      end
   end.
 
 Definition check_C18 (c : rcase) : nat :=
